@@ -764,6 +764,39 @@ fn oracle(c: &Case, seen: &Seen) -> Vec<(String, String)> {
             if tag.starts_with("Unknown(") && tag != format!("Unknown({},{})", e.code, e.flags) {
                 fail("reason-unknown-fields", tag.clone());
             }
+            // the reason is the documented function of record, OS and CPU
+            if let Some(want) = expected_reason(e, os, cpu) {
+                if tag != want {
+                    fail("reason", format!("reason {tag}, documented {want} (os {os:?}, cpu {cpu:?})"));
+                }
+            }
+            let cls = match os {
+                Os::Windows => 'W',
+                Os::Linux | Os::Android => 'L',
+                Os::MacOs | Os::Ios => 'M',
+                _ => '-',
+            };
+            for (c, code, flags, want) in DOCUMENTED {
+                if *c == cls && *code == e.code && (*flags == e.flags || cls == 'W') && tag != *want {
+                    fail("reason-documented-constant", format!("reason {tag} for code {code:#x} flags {flags:#x}, the platform ABI says {want}"));
+                }
+            }
+            if cls == 'W' && e.code == 0xc000_0005 && e.np >= 1 {
+                let want = match e.p0 {
+                    0 => Some("WindowsAccessViolation(READ)"),
+                    1 => Some("WindowsAccessViolation(WRITE)"),
+                    8 => Some("WindowsAccessViolation(EXEC)"),
+                    _ => None,
+                };
+                if let Some(w) = want {
+                    if tag != w {
+                        fail("reason-documented-constant", format!("reason {tag}, the platform ABI says {w}"));
+                    }
+                }
+            }
+            if cls == 'W' && e.code == 0xc000_0409 && e.np >= 1 && tag != format!("WindowsStackBufferOverrun({})", e.p0 & 0xffff_ffff) {
+                fail("reason-documented-constant", format!("reason {tag} for STATUS_STACK_BUFFER_OVERRUN"));
+            }
         }
         (a, b) => fail("exception-info-presence", format!("exception stream {:?}, exception_info {:?}", a.is_some(), b.is_some())),
     }
@@ -817,33 +850,183 @@ fn oracle(c: &Case, seen: &Seen) -> Vec<(String, String)> {
 
 // --------------------------------------------------------------------------------- generator
 
-/// numeric literals of the enums in the repository's error tables, read loosely at run time —
-/// only to aim the generator at interesting codes (nothing is trusted from here).
-fn source_codes() -> BTreeMap<String, Vec<u64>> {
-    let repo = std::env::var("VERIF_REPO").unwrap_or_else(|_| "/repo".to_string());
-    let mut out: BTreeMap<String, Vec<u64>> = BTreeMap::new();
-    for f in ["windows.rs", "linux.rs", "macos.rs"] {
-        let Ok(text) = std::fs::read_to_string(format!("{repo}/minidump-common/src/errors/{f}")) else {
-            continue;
-        };
-        let mut cur: Option<String> = None;
-        for l in text.lines() {
-            let t = l.trim();
-            if let Some(rest) = t.strip_prefix("pub enum ") {
-                cur = Some(rest.trim_end_matches('{').trim().to_string());
-            } else if t == "}" {
-                cur = None;
-            } else if let (Some(e), Some((_, v))) = (&cur, t.split_once(" = ")) {
-                let v = v.trim_end_matches(',').trim_end_matches("u32").trim_end_matches("u64").trim_end_matches("i32");
-                let n = if let Some(h) = v.strip_prefix("0x") { u64::from_str_radix(h, 16).ok() } else { v.parse().ok() };
-                if let Some(n) = n {
-                    out.entry(e.clone()).or_default().push(n);
+/// (value, variant name) literals of the enums in the repository's error tables, read loosely at
+/// run time (a second, independent reading of the same files the Lean translator reads strictly).
+/// Used to aim the generator at interesting codes and by the oracle's statement of the documented
+/// reason function.
+type Tables = BTreeMap<String, Vec<(u64, String)>>;
+
+fn source_tables() -> &'static Tables {
+    static T: std::sync::OnceLock<Tables> = std::sync::OnceLock::new();
+    T.get_or_init(|| {
+        let repo = std::env::var("VERIF_REPO").unwrap_or_else(|_| "/repo".to_string());
+        let mut out: Tables = BTreeMap::new();
+        for f in ["windows.rs", "linux.rs", "macos.rs"] {
+            let Ok(text) = std::fs::read_to_string(format!("{repo}/minidump-common/src/errors/{f}")) else {
+                continue;
+            };
+            let mut cur: Option<String> = None;
+            for l in text.lines() {
+                let t = l.trim();
+                if t.starts_with("//") {
+                    continue;
+                }
+                if let Some(rest) = t.strip_prefix("pub enum ") {
+                    cur = Some(rest.trim_end_matches('{').trim().to_string());
+                } else if t == "}" {
+                    cur = None;
+                } else if let (Some(e), Some((name, v))) = (&cur, t.split_once(" = ")) {
+                    let v = v.trim_end_matches(',').trim_end_matches("u32").trim_end_matches("u64").trim_end_matches("i32");
+                    let n = if let Some(h) = v.strip_prefix("0x") { u64::from_str_radix(h, 16).ok() } else { v.parse().ok() };
+                    if let Some(n) = n {
+                        out.entry(e.clone()).or_default().push((n, name.trim().to_string()));
+                    }
                 }
             }
         }
-    }
-    out
+        out
+    })
 }
+
+fn source_codes() -> BTreeMap<String, Vec<u64>> {
+    source_tables().iter().map(|(k, v)| (k.clone(), v.iter().map(|e| e.0).collect())).collect()
+}
+
+fn look<'a>(en: &str, v: u64) -> Option<&'a str> {
+    source_tables().get(en)?.iter().find(|e| e.0 == v).map(|e| e.1.as_str())
+}
+
+/// The documented reason function (doc comments of `CrashReason::from_*_exception` and the enum
+/// tables), stated independently of the implementation's control flow: returns the expected `{:?}`
+/// tag without blanks. `None` when the tables could not be read.
+fn expected_reason(e: &Exc, os: Os, cpu: Cpu) -> Option<String> {
+    if source_tables().is_empty() {
+        return None;
+    }
+    let code = e.code as u64;
+    let flags = e.flags as u64;
+    let unknown = format!("Unknown({},{})", e.code, e.flags);
+    Some(match os {
+        Os::Windows => {
+            if let Some(n) = look("ExceptionCodeWindows", code) {
+                if n == "EXCEPTION_ACCESS_VIOLATION" && e.np >= 1 {
+                    if let Some(ty) = look("ExceptionCodeWindowsAccessType", e.p0) {
+                        return Some(format!("WindowsAccessViolation({ty})"));
+                    }
+                }
+                if n == "EXCEPTION_IN_PAGE_ERROR" && e.np >= 3 {
+                    if let Some(ty) = look("ExceptionCodeWindowsInPageErrorType", e.p0) {
+                        return Some(format!("WindowsInPageError({ty},{})", e.p2 & 0xffff_ffff));
+                    }
+                }
+                format!("WindowsGeneral({n})")
+            } else if let Some(n) = look("WinErrorWindows", code) {
+                format!("WindowsWinError({n})")
+            } else if let Some(n) = look("NtStatusWindows", code) {
+                if n == "STATUS_STACK_BUFFER_OVERRUN" && e.np >= 1 {
+                    format!("WindowsStackBufferOverrun({})", e.p0 & 0xffff_ffff)
+                } else {
+                    format!("WindowsNtStatus({n})")
+                }
+            } else {
+                let fac = look("WinErrorFacilityWindows", (code >> 16) & 0xfff);
+                let err = look("WinErrorWindows", code & 0xffff);
+                match (code & 0xf000_0000 != 0, fac, err) {
+                    (true, Some(f), Some(er)) => format!("WindowsWinErrorWithFacility({f},{er})"),
+                    _ => format!("WindowsUnknown({})", e.code),
+                }
+            }
+        }
+        Os::Linux | Os::Android => match look("ExceptionCodeLinux", code) {
+            None => unknown,
+            Some(sig) => {
+                let refined = ["SIGILL", "SIGTRAP", "SIGFPE", "SIGSEGV", "SIGBUS", "SIGSYS"].contains(&sig);
+                // SIGSEGV -> family LinuxSigsegv, table ExceptionCodeLinuxSigsegvKind
+                let stem = format!("Sig{}", sig[3..].to_ascii_lowercase());
+                match look(&format!("ExceptionCodeLinux{stem}Kind"), flags) {
+                    Some(kind) if refined => format!("Linux{stem}({kind})"),
+                    _ => format!("LinuxGeneral({sig},{})", e.flags),
+                }
+            }
+        },
+        Os::MacOs | Os::Ios => match look("ExceptionCodeMac", code) {
+            None => unknown,
+            Some(exc) => {
+                let cls = match cpu {
+                    Cpu::Arm64 => "Arm",
+                    Cpu::Ppc => "Ppc",
+                    Cpu::X86 | Cpu::X86_64 => "X86",
+                    _ => "",
+                };
+                let general = format!("MacGeneral({exc},{})", e.flags);
+                let per_cpu = |stem: &str| -> String {
+                    if cls.is_empty() {
+                        return general.clone();
+                    }
+                    match look(&format!("ExceptionCodeMac{stem}{cls}Type"), flags) {
+                        Some(ty) => format!("Mac{stem}{cls}({ty})"),
+                        None => general.clone(),
+                    }
+                };
+                let top3 = (flags >> 29) & 7;
+                match exc {
+                    "EXC_BAD_ACCESS" => match look("ExceptionCodeMacBadAccessKernType", flags) {
+                        Some(k) => format!("MacBadAccessKern({k})"),
+                        None => per_cpu("BadAccess"),
+                    },
+                    "EXC_BAD_INSTRUCTION" => per_cpu("BadInstruction"),
+                    "EXC_ARITHMETIC" => per_cpu("Arithmetic"),
+                    "EXC_BREAKPOINT" => per_cpu("Breakpoint"),
+                    "EXC_SOFTWARE" => match look("ExceptionCodeMacSoftwareType", flags) {
+                        Some(t) => format!("MacSoftware({t})"),
+                        None => general,
+                    },
+                    "EXC_RESOURCE" => match look("ExceptionCodeMacResourceType", top3) {
+                        Some(t) => format!("MacResource({t},{},{})", e.p1, e.p2),
+                        None => general,
+                    },
+                    "EXC_GUARD" => match look("ExceptionCodeMacGuardType", top3) {
+                        Some(t) => format!("MacGuard({t},{},{})", e.p1, e.p2),
+                        None => general,
+                    },
+                    _ => general,
+                }
+            }
+        },
+        _ => unknown,
+    })
+}
+
+/// Platform-ABI constants that the enum tables document (ntstatus.h, asm-generic/siginfo.h,
+/// mach/exception_types.h, kern_return.h): (os class, code, flags, expected tag). Checked by the
+/// oracle so that a silently changed table value yields a failing input.
+/// os class: 'W' Windows, 'L' Linux/Android, 'M' macOS/iOS (any CPU unless the tag is CPU specific).
+const DOCUMENTED: &[(char, u32, u32, &str)] = &[
+    ('L', 11, 1, "LinuxSigsegv(SEGV_MAPERR)"),
+    ('L', 11, 2, "LinuxSigsegv(SEGV_ACCERR)"),
+    ('L', 7, 1, "LinuxSigbus(BUS_ADRALN)"),
+    ('L', 7, 2, "LinuxSigbus(BUS_ADRERR)"),
+    ('L', 4, 1, "LinuxSigill(ILL_ILLOPC)"),
+    ('L', 4, 2, "LinuxSigill(ILL_ILLOPN)"),
+    ('L', 8, 1, "LinuxSigfpe(FPE_INTDIV)"),
+    ('L', 8, 3, "LinuxSigfpe(FPE_FLTDIV)"),
+    ('L', 5, 1, "LinuxSigtrap(TRAP_BRKPT)"),
+    ('L', 31, 1, "LinuxSigsys(SYS_SECCOMP)"),
+    ('L', 6, 0, "LinuxGeneral(SIGABRT,0)"),
+    ('L', 9, 0, "LinuxGeneral(SIGKILL,0)"),
+    ('L', 13, 0, "LinuxGeneral(SIGPIPE,0)"),
+    ('M', 1, 1, "MacBadAccessKern(KERN_INVALID_ADDRESS)"),
+    ('M', 1, 2, "MacBadAccessKern(KERN_PROTECTION_FAILURE)"),
+    ('M', 10, 0, "Unknown(10,0)"),
+    ('M', 5, 0x10002, "MacSoftware(SIGABRT)"),
+    ('W', 0x8000_0003, 0, "WindowsGeneral(EXCEPTION_BREAKPOINT)"),
+    ('W', 0xc000_001d, 0, "WindowsGeneral(EXCEPTION_ILLEGAL_INSTRUCTION)"),
+    ('W', 0xc000_0094, 0, "WindowsGeneral(EXCEPTION_INT_DIVIDE_BY_ZERO)"),
+    ('W', 0xc000_00fd, 0, "WindowsGeneral(EXCEPTION_STACK_OVERFLOW)"),
+    ('W', 0xc000_0017, 0, "WindowsNtStatus(STATUS_NO_MEMORY)"),
+    ('W', 5, 0, "WindowsWinError(ERROR_ACCESS_DENIED)"),
+    ('W', 0xe06d_7363, 0, "WindowsGeneral(UNHANDLED_CPP_EXCEPTION)"),
+];
 
 const PLATFORMS: &[u32] = &[0, 1, 2, 3, 4, 0x8000, 0x8101, 0x8102, 0x8201, 0x8202, 0x8203, 0x8204, 0x8205, 0x8206, 77, 0xffff_ffff];
 const ARCHS: &[u16] = &[0, 1, 2, 3, 4, 5, 6, 7, 8, 9, 10, 11, 12, 0x8001, 0x8002, 0x8003, 0x8004, 0x8005, 0xffff];
